@@ -5,6 +5,7 @@ package vfe2e
 // flight together (so the 6 s of a silent upstream are paid once per batch).
 
 import (
+	"bytes"
 	"crypto/tls"
 	"fmt"
 	"os"
@@ -477,7 +478,7 @@ func TestVfC03(t *testing.T) {
 // over the limit is up to the scheduler, so REFUSED is accepted for any query of a batch that exceeds the limit - but
 // every query still gets exactly one response with its own ID and question, while the client keeps the connection open.
 func TestVfC03Pipelined(t *testing.T) {
-	st := vfkit.Stats("TestVfC03Pipelined", "k in 2..30 queries written with one Write (or in 2-3 chunks) on one tcp / gnet / tls connection to a proxy with max_concurrent_queries in {1,2,4}, upstream replies delayed 0-400 ms, some upstreams silent or closing; oracle: exactly one response per query ID within 8 s, own question echoed, rcode = the expected one or REFUSED when k exceeds the limit; non-trivial = k > limit")
+	st := vfkit.Stats("TestVfC03Pipelined", "k in 2..30 queries (one in six padded to 2^8..2^13 octets +-2) written with one Write (or in 2-3 chunks) on one tcp / gnet / tls connection to a proxy with max_concurrent_queries in {1,2,4}, upstream replies delayed 0-400 ms, some upstreams silent or closing; oracle: exactly one response per query ID within 8 s, own question echoed, rcode = the expected one or REFUSED when k exceeds the limit; non-trivial = k > limit")
 	defer vfkit.Flush()
 	block := NextIPBlock()
 	var delays sync.Map // first label -> script
@@ -547,7 +548,17 @@ func TestVfC03Pipelined(t *testing.T) {
 			name := vfkit.Name{[]byte(label), []byte("c03p"), []byte("test")}
 			qs[i] = qi{id: uint16(caseNo*64 + i), name: name, outcome: oc}
 			bounds = append(bounds, len(stream))
-			stream = append(stream, frame(Query(qs[i].id, name, 1, 1, false))...)
+			qw := Query(qs[i].id, name, 1, 1, false)
+			if rapid.IntRange(0, 5).Draw(t, "edgeSized") == 0 {
+				// a query padded (one opaque additional record) to a power of two or an octet or two next to it
+				target := 1<<rapid.IntRange(8, 13).Draw(t, "log2") + rapid.IntRange(-2, 2).Draw(t, "offBy")
+				if pad := target - len(qw) - 11; pad >= 0 {
+					m := &vfkit.Msg{ID: qs[i].id, Bits: vfkit.BitRD, Q: []vfkit.Question{{Name: name, Type: 1, Class: 1}},
+						Ar: []vfkit.RR{{Type: 65280, Class: 1, RData: []vfkit.RDPart{{Raw: bytes.Repeat([]byte{6}, pad)}}}}}
+					qw = EncodeMsg(m)
+				}
+			}
+			stream = append(stream, frame(qw)...)
 		}
 		var cuts []int
 		for i := rapid.IntRange(0, 2).Draw(t, "chunks"); i > 0; i-- {
